@@ -72,6 +72,7 @@ impl SrcBuilder<'_> {
                 reduce_fn_prefix.clone(),
                 action_table_name.clone(),
                 goto_table_name.clone(),
+                parse_fn_type_param_name.clone(),
             ])
         });
 
